@@ -171,7 +171,10 @@ def check_case(case, common, out):
         out["notes"][f"refused at construction: {case[3]}"] = f"{type(ex).__name__}: {str(ex)[:80]}"
         return
     replay = {"kind": "call", "module": "vf.props.C11", "func": "replay_case", "args": {"case": list(case)}}
-    check_collection(q, cid, prog.order_free, out, replay, rng, index_free=prog.index_free, plan_dependent_layout="sort" in prog.tags)
+    toks = set(case[3].split(":"))
+    if "idx" in toks and prog.index_free:
+        return  # the result IS the labels that the program leaves undefined
+    check_collection(q, cid, prog.order_free, out, replay, rng, index_free=prog.index_free, plan_dependent_layout=("sort" in prog.tags or bool(toks & {"repart2", "repart5"}) or "repartition" in case[3]))
     if len(out["samples"]) < 2:
         out["samples"].append({"case": cid})
 
